@@ -241,7 +241,7 @@ impl Monitor for C18 {
     }
     fn streams(&self, tier: Tier, budget: f64) -> Vec<Stream> {
         let n = match tier {
-            Tier::Quick => 150_000,
+            Tier::Quick => 1_000_000,
             Tier::Thorough => 5_000_000,
         };
         vec![Stream::new("forced", forced().len() as u64 * 3), Stream::new("random", scaled(n, budget))]
